@@ -105,6 +105,14 @@ func (c *SpecCtx) resolveType(e ast.Expr) types.Type {
 		case "Int":
 			return intType
 		}
+		// types of dot-imported packages
+		if c.pkg != nil {
+			for _, imp := range c.ft.eng.dotImports[c.pkg.Path()] {
+				if tn, ok := imp.Scope().Lookup(x.Name).(*types.TypeName); ok {
+					return tn.Type()
+				}
+			}
+		}
 		c.fail("unknown type %s", x.Name)
 	case *ast.SelectorExpr:
 		if id, ok := x.X.(*ast.Ident); ok {
